@@ -1,5 +1,6 @@
 import UralModel.Lemmas.Canonicalize
 import UralModel.Lemmas.Normpath
+import UralModel.Lemmas.CanonRoundTrip
 /-!
 # C01 — canonicalize_url never changes where the URL leads
 
@@ -37,6 +38,15 @@ theorem tables_delims :
     (∀ b ∈ ([0x40, 0x3A, 0x2F, 0x3F, 0x23] : List UInt8), b ∈ Gen.Quote.unsafeForAuthItem) ∧
     (∀ b ∈ ([0x2F, 0x3F, 0x23] : List UInt8), b ∈ Gen.Quote.unsafeForPath) ∧
     (∀ b ∈ ([0x26, 0x3D, 0x23] : List UInt8), b ∈ Gen.Quote.unsafeForQueryItem) := by
+  decide
+
+/-- **table obligation (FX-C01-6e09416)**: in a query a raw `+` is a space and `%2B` a plus sign.
+`+` is in the regenerated `UNSAFE_FOR_QUERY_ITEM` (so `%2B` stays escaped), and the quoting step
+of query items leaves a raw `+` alone — in the model (`quoteSafeQ`) and in the regenerated safe
+sets of the real `safely_quote_qsl` (probed on the function, key and value) -/
+theorem tables_plus :
+    (0x2B : UInt8) ∈ Gen.Quote.unsafeForQueryItem ∧ quoteSafeQ '+' = true ∧
+    Gen.Quote.qslQuoteSafeKey.contains 0x2B = true ∧ Gen.Quote.qslQuoteSafeValue.contains 0x2B = true := by
   decide
 
 /-! ## same resource, component by component -/
@@ -125,6 +135,106 @@ example :
     hostKey aceDemo (canonHost bare "xn--caf-pia.fr".toList) ≠ hostKey aceDemo "xn--caf-pia.fr".toList := by
   decide +kernel
 
+/-! ### a decoder that really decodes, satisfying every law the theorems assume — together
+
+`PunyLaws`, `PunyClean` (`Lemmas/CanonRoundTrip.lean`) and `IdnaLaws` are the hypotheses the
+whole-function theorems (`Props/C01Whole.lean`) take of the label decoder.  Besides the identity
+decoder, `punyOne` below decodes the label `xn--9ca` — whatever the case it is written in — to
+`é`, and satisfies the three structures at once with the encoder `aceOne` (`punyDemo` above does
+not: it is case-sensitive, so `PunyLaws.stable` fails on `XN--9CA`). -/
+
+/-- decodes the ACE label of `é`, case-insensitively; every other label is left alone -/
+def punyOne (x : Str) : Str := if lower x = "xn--9ca".toList then "é".toList else x
+
+/-- the matching encoder (ToASCII + lower-casing of one label) -/
+def aceOne (l : Str) : Str := if l = "é".toList then "xn--9ca".toList else lower l
+
+theorem lowerChar_eq_eacute {c : Char} (h : lowerChar c = 'é') : c = 'é' := by
+  unfold lowerChar at h
+  split at h
+  · rename_i hc
+    exfalso
+    have h1 : ('A' : Char).toNat = 65 := by decide
+    have h2 : ('Z' : Char).toNat = 90 := by decide
+    rw [char_le_iff, char_le_iff, h1, h2] at hc
+    have := congrArg Char.toNat h
+    rw [toNat_ofNat_of_lt (by omega)] at this
+    have h3 : ('é' : Char).toNat = 233 := by decide
+    omega
+  · exact h
+
+theorem lower_eq_eacute {l : Str} (h : lower l = "é".toList) : l = "é".toList := by
+  match l, h with
+  | [c], h =>
+    have e : "é".toList = ['é'] := by decide
+    rw [e] at h ⊢
+    simp only [lower, List.map_cons, List.map_nil, List.cons.injEq, and_true] at h
+    rw [lowerChar_eq_eacute h]
+  | [], h => simp [lower] at h
+  | _ :: _ :: _, h => simp [lower] at h
+
+theorem punyLaws_punyOne : PunyLaws punyOne where
+  no_dot := by
+    intro x hx
+    unfold punyOne
+    split
+    · decide
+    · exact hx
+  stable := by
+    intro x hx
+    unfold punyOne at hx ⊢
+    by_cases h : lower x = "xn--9ca".toList
+    · rw [if_pos h] at hx; exact absurd hx (by decide)
+    · rw [if_neg h] at hx ⊢
+      rw [lower_idem, if_neg h, lower_idem]
+
+theorem punyClean_punyOne : Ural.CanonRoundTrip.PunyClean punyOne where
+  clean := by
+    intro x c hc hb
+    unfold punyOne at hc
+    split at hc
+    · exfalso
+      have e : "é".toList = ['é'] := by decide
+      rw [e, List.mem_singleton] at hc
+      subst hc; revert hb; decide
+    · exact hc
+  nonempty := by
+    intro x hx
+    unfold punyOne
+    split
+    · decide
+    · exact hx
+
+theorem idnaLaws_punyOne : IdnaLaws aceOne punyOne where
+  ace_lower := by
+    intro l
+    unfold aceOne
+    by_cases h : l = "é".toList
+    · subst h; decide
+    · rw [if_neg h, if_neg (fun e => h (lower_eq_eacute e)), lower_idem]
+  same_name := by
+    intro x
+    unfold punyOne aceOne
+    by_cases h : lower x = "xn--9ca".toList
+    · rw [if_pos h, if_pos rfl]
+      have hne : x ≠ "é".toList := by rintro rfl; revert h; decide
+      rw [if_neg hne, h]
+    · rw [if_neg h]
+
+/-- **the conjunction of the hypotheses of the whole-function theorems is satisfiable by a
+decoder that decodes** -/
+theorem decoder_laws_together :
+    PunyLaws punyOne ∧ Ural.CanonRoundTrip.PunyClean punyOne ∧ IdnaLaws aceOne punyOne ∧
+    punyOne "XN--9ca".toList = "é".toList ∧
+    canonHost punyOne "WWW.XN--9CA.Fr".toList = "www.é.fr".toList ∧
+    hostKey aceOne "www.é.fr".toList = hostKey aceOne "WWW.XN--9CA.Fr".toList :=
+  ⟨punyLaws_punyOne, punyClean_punyOne, idnaLaws_punyOne, by decide +kernel, by decide +kernel,
+    by decide +kernel⟩
+
+/-- `punyDemo` is not such a decoder -/
+example : ¬ (lower (punyDemo (lower (punyDemo "XN--9CA".toList))) = lower (punyDemo "XN--9CA".toList)) := by
+  decide +kernel
+
 /-- port: same effective port (only the scheme's own default port is dropped) -/
 theorem canon_port (puny : Str → Str) (quoted sf : Bool) (p : Parsed) :
     effPort p.scheme (canonComps puny quoted sf p).port = effPort p.scheme p.port := by
@@ -138,6 +248,24 @@ theorem canon_query (puny : Str → Str) (quoted sf : Bool) (p : Parsed) :
     (safeQslIter (canonComps puny quoted sf p).query).map pctItem
       = (safeQslIter p.query).map pctItem :=
   canonQuery_items quoted p.query
+
+/-- query, **form reading**: same ordered list of form-decoded keys and values (`formStr`: a
+raw `+` is a space, `%2B` a plus sign — what a server makes of a query).  `canon_query` reads
+`+` as a plus sign and cannot see `%2B` ↔ `+` (FX-C01-6e09416: `?a=%2B` became `?a=+`, `?b=+` became
+`?b=%2B` in quoted mode); this clause can, and holds since the fix (`tables_plus`). -/
+theorem canon_query_form (puny : Str → Str) (quoted sf : Bool) (p : Parsed) :
+    (safeQslIter (canonComps puny quoted sf p).query).map formItem
+      = (safeQslIter p.query).map formItem :=
+  canonQuery_items_form tables_plus.1 quoted p.query
+
+/-- non-vacuity, on the witness of FX-C01-6e09416: both spellings come back as they are, in both
+modes, and their form readings differ -/
+example :
+    canonQuery false "a=%2B&b=+".toList = "a=%2B&b=+".toList ∧
+    canonQuery true "a=%2B&b=+ %2b".toList = "a=%2B&b=+%20%2b".toList ∧
+    formItem ("a".toList, some "%2B".toList) ≠ formItem ("a".toList, some "+".toList) ∧
+    pctItem ("a".toList, some "%2B".toList) = pctItem ("a".toList, some "+".toList) := by
+  decide +kernel
 
 /-- fragment: same decoded fragment unless `strip_fragment` was requested -/
 theorem canon_fragment (puny : Str → Str) (quoted : Bool) (p : Parsed) :
@@ -310,12 +438,14 @@ theorem canon_no_new_delimiter :
   · rcases hd with rfl | rfl | rfl <;>
       exact not_mem_safelyUnquote _ ⟨by decide, by decide⟩ (by decide) (by decide) s hs
 
-/-- in quoted mode no reserved character other than `/` is left raw at all -/
+/-- in quoted mode no reserved character other than `/` is left raw at all — in a query key or
+value (`safely_quote(…, safe="/+")`) none other than `/` and `+` -/
 theorem canon_quoted_no_delimiter (d : Char) (hd : d ∈ ['@', ':', '?', '#', '&', '=', ' '])
-    (s : Str) : d ∉ safelyQuote s := by
+    (s : Str) : d ∉ safelyQuote s ∧ d ∉ quoteQueryItem s := by
   simp only [List.mem_cons, List.not_mem_nil, or_false] at hd
   rcases hd with rfl | rfl | rfl | rfl | rfl | rfl | rfl <;>
-    exact not_mem_safelyQuote ⟨by decide, by decide⟩ (by decide) s
+    exact ⟨not_mem_safelyQuote ⟨by decide, by decide⟩ (by decide) s,
+      not_mem_quoteQueryItem ⟨by decide, by decide⟩ (by decide) s⟩
 
 /-! ## non-vacuity: a URL with userinfo, punycode host, default port, escaped reserved and
 unreserved bytes, an undecodable byte, a query and a fragment -/
